@@ -451,8 +451,57 @@ class Executor:
         self.solver_time = 0.0
         self.n_axioms_asserted = 0
         self.n_checks = 0
+        # sidecar loop contracts (cfg['loop_invariants']) and loop summaries
+        self.declname = {}    # decl id -> source name
+        self.loop_ord = {}    # loop node id -> ordinal (source order)
+        self.loop_log = []    # summaries of the loops executed (final runs)
+        self._probing = 0
+        self._index_fn(self.fn)
 
     # ---------------------------------------------------------- utilities
+    def _index_fn(self, n):
+        k = n.get('kind')
+        if k in ('VarDecl', 'ParmVarDecl') and n.get('id') and n.get('name'):
+            self.declname[n['id']] = n['name']
+        if k in ('ForStmt', 'WhileStmt', 'DoStmt') and n.get('id'):
+            self.loop_ord[n['id']] = len(self.loop_ord)
+        for c in n.get('inner', []) or []:
+            if isinstance(c, dict):
+                self._index_fn(c)
+
+    def env(self, st):
+        """source name -> value of the local variables / parameters"""
+        return {self.declname[r]: v for r, v in st.vars.items()
+                if r in self.declname}
+
+    def sidecar_invariants(self, s, st):
+        """[(label, z3 Bool)] given by the contract for this loop in this
+        state; an anchor that does not resolve (a variable the contract
+        names no longer exists) is reported as an undecided obligation"""
+        f = self.cfg.get('loop_invariants')
+        if f is None:
+            return []
+        o = self.loop_ord.get(s.get('id'))
+        try:
+            return list(f(self, o, self.env(st), st) or [])
+        except (KeyError, AttributeError, TypeError) as e:
+            ob = Oblig('%s:loop-invariant:anchor of loop %s' % (self.fname, o),
+                       'loop-invariant', [], z3.BoolVal(False),
+                       'the invariant of loop %s can be evaluated (%s: %s)' %
+                       (o, type(e).__name__, e), s.get('line', 0),
+                       {'force': 'undecided'})
+            st.obligs.append(ob)
+            return []
+
+    def inv_oblig(self, s, st, label, goal, phase):
+        o = self.loop_ord.get(s.get('id'))
+        text = 'invariant `%s` of loop %s %s' % (
+            label, o, 'holds on entry' if phase == 'entry'
+            else 'is preserved by the body')
+        st.obligs.append(Oblig('%s:loop-invariant:%s' % (self.fname, text),
+                               'loop-invariant', list(st.path()),
+                               z3.simplify(goal), text, s.get('line', 0)))
+
     def fresh_int(self, name, ty='int', constrain=True):
         n = self.site_counts.get(('fresh', name), 0)
         self.site_counts[('fresh', name)] = n + 1
@@ -993,7 +1042,9 @@ class Executor:
                 st.ghost[('last_load', r.uid)] = v.t
             return v
         if t.kind in ('float', 'complex'):
-            return FltV(z3.Real(lname), loc.ty)
+            fv = FltV(z3.Real(lname), loc.ty)
+            st.ghost[('floadrec', lname)] = (r, p.off, sz, fv.t)
+            return fv
         return Opaque('mem ' + r.name)
 
     def write(self, loc, v, st, n):
@@ -1065,6 +1116,12 @@ class Executor:
                 # facts of loops and post-conditions on index lists)
                 st.ghost[('storerec', len(st.stores))] = (
                     r, p.off, sz, toint(v).t, list(st.path()))
+            elif isinstance(v, FltV) and z3.is_expr(v.t):
+                # real-valued stores too (kernel definitions: y[ip] /= c)
+                st.ghost[('fstorerec', len(st.stores))] = (
+                    r, p.off, sz, v.t, list(st.path()), n.get('line'),
+                    [g_ for k_, g_ in st.ghost.items() if isinstance(
+                        k_, tuple) and k_ and k_[0] == 'floadrec'])
             return
         raise Unsupported('write loc %r' % (loc,))
 
@@ -1951,7 +2008,7 @@ class Executor:
             self.lhs_vars(n['inner'][0], out)
 
     def default_loop(self, s, st, links=None, probe=True, drop=(),
-                     bounds=()):
+                     bounds=(), keep=()):
         """Invariant rule with automatic invariants.  Everything assigned in
         the loop is havoced.  Counting loops `for (c = a; c < b; c++)` whose
         counter is not assigned in the body get a <= c (c < b in the body,
@@ -1965,6 +2022,7 @@ class Executor:
         kind = s['kind']
         inner = s['inner']
         s0, st0 = s, st.copy()
+        mark = len(self.loop_log)
         if kind == 'ForStmt':
             init, cond, inc, body = inner[0], inner[2], inner[3], inner[4]
         elif kind == 'WhileStmt':
@@ -1976,6 +2034,9 @@ class Executor:
             if len(outs) != 1 or outs[0].kind != 'fall':
                 raise Unsupported('loop initialiser with control flow')
             st = outs[0].st
+        # sidecar invariants (contract): must hold on entry
+        for lb_, iv_ in self.sidecar_invariants(s0, st):
+            self.inv_oblig(s0, st, lb_, iv_, 'entry')
         assigned = {}
         self.assigned_in(body, assigned)
         if inc is not None:
@@ -1998,6 +2059,7 @@ class Executor:
                 counter = rid
                 break
         links = dict(links or {})     # rid -> (start term, per-iteration delta)
+        fstart = {}                   # rid -> fresh real symbol at the head
 
         def havoc(state, syms=None):
             new = {}
@@ -2023,8 +2085,14 @@ class Executor:
                         if rid in lows:
                             state.pc.append(nv.t >= lows[rid])
                     elif isinstance(old, FltV):
+                        if rid in keep:
+                            # real-valued variable that no path through the
+                            # body changes (guessed by the probe, checked
+                            # below): e.g. a constant passed by reference
+                            continue
                         state.vars[rid] = FltV(self.fresh_real(
                             'loop_' + nm), old.ty)
+                        fstart[rid] = state.vars[rid].t
                     elif isinstance(old, StructV):
                         state.vars[rid] = StructV(old.ty)
                     elif isinstance(old, PtrV):
@@ -2055,28 +2123,51 @@ class Executor:
                         state.pc.append(f_(kk))
                     except Exception:
                         pass
+            # sidecar invariants are assumed at the head of the arbitrary
+            # iteration and at the exit (they are checked on entry and at the
+            # end of the body)
+            for lb_, iv_ in self.sidecar_invariants(s0, state):
+                state.pc.append(iv_)
             return new
 
         if links is None or probe:
             pass
         if probe and not links and (counter is not None or
                                     self.has_call(body)):
+            self._fkeep = set()
+            self._fstart = fstart
             guess, dropped = self.probe_links(st, assigned, lows, counter,
                                               havoc, cond, body, inc)
+            fk = tuple(sorted(self._fkeep))
             bnds = self.probe_bounds(st, assigned, lows, counter, guess,
                                      dropped, cond, body, inc, s0, st0)
-            if guess or dropped or bnds:
+            if guess or dropped or bnds or fk:
+                del self.loop_log[mark:]
                 return self.default_loop(s0, st0, links=guess, probe=False,
-                                         drop=dropped, bounds=bnds)
+                                         drop=dropped, bounds=bnds, keep=fk)
         results = []
         # arbitrary iteration
         b = st.copy()
         start = havoc(b)
         c = tobool(self.ev(cond, b)) if cond.get('kind') != 'NullStmt' \
             else z3.BoolVal(True)
+        log = {'ord': self.loop_ord.get(s0.get('id')), 'line': s0.get('line'),
+               'counter': self.declname.get(counter), 'lo': lows.get(counter),
+               'entry_pc': list(st.path()), 'entry_env': self.env(st),
+               'head_env': self.env(b), 'cond': c, 'body': [],
+               'exit_env': None, 'exit_pc': None, 'node': s0}
+        log['head_pc'] = list(b.path())
         if self.check(b.path(), [c]) != z3.unsat:
             b.pc.append(c)
             for o in self.exec_stmt(body, b):
+                log['body'].append({
+                    'kind': o.kind, 'pc': list(o.st.path()),
+                    'calls': o.st.calls[len(b.calls):],
+                    'stores': o.st.stores[len(b.stores):],
+                    'fstores': [v_ for k_, v_ in o.st.ghost.items()
+                                if isinstance(k_, tuple) and k_ and
+                                k_[0] == 'fstorerec' and k_ not in b.ghost],
+                    'env': self.env(o.st)})
                 if o.kind in ('fall', 'continue'):
                     # obligations of the iteration are kept; the state is
                     # summarised by the exit state below
@@ -2085,6 +2176,19 @@ class Executor:
                             self.ev(inc, o.st)
                         except NeedFork:
                             pass
+                    log['body'][-1]['env_end'] = self.env(o.st)
+                    for rid in keep:
+                        v0_, ve_ = st.vars.get(rid), o.st.vars.get(rid)
+                        if not (isinstance(v0_, FltV) and isinstance(
+                                ve_, FltV) and z3.is_expr(v0_.t) and
+                                z3.is_expr(ve_.t) and z3.eq(v0_.t, ve_.t)):
+                            del self.loop_log[mark:]
+                            return self.default_loop(
+                                s0, st0, links=links, probe=False, drop=drop,
+                                bounds=bounds, keep=tuple(
+                                    k_ for k_ in keep if k_ != rid))
+                    for lb_, iv_ in self.sidecar_invariants(s0, o.st):
+                        self.inv_oblig(s0, o.st, lb_, iv_, 'preserved')
                     if (links and counter in start) or bounds:
                         # the guessed invariants must be preserved
                         for rid, (v0, d) in (links.items() if counter in
@@ -2099,9 +2203,10 @@ class Executor:
                                     z3.unsat:
                                 bad = dict(links)
                                 del bad[rid]
+                                del self.loop_log[mark:]
                                 return self.default_loop(
                                     s0, st0, links=bad, probe=False,
-                                    drop=drop, bounds=bounds)
+                                    drop=drop, bounds=bounds, keep=keep)
                         for (rid, op_, K) in bounds:
                             ve = o.st.vars.get(rid)
                             if not isinstance(ve, IntV):
@@ -2109,11 +2214,12 @@ class Executor:
                             inv = ve.t >= K if op_ == 'ge' else ve.t <= K
                             if self.check(o.st.path(), [z3.Not(inv)]) != \
                                     z3.unsat:
+                                del self.loop_log[mark:]
                                 return self.default_loop(
                                     s0, st0, links=links, probe=False,
                                     drop=drop, bounds=tuple(
                                         b_ for b_ in bounds
-                                        if b_ != (rid, op_, K)))
+                                        if b_ != (rid, op_, K)), keep=keep)
                     results.append(Outcome('dropped', o.st))
                 elif o.kind == 'break':
                     results.append(Outcome('fall', o.st))
@@ -2172,12 +2278,16 @@ class Executor:
                                'iter_stores': 1 if kind_ == 'written' else 0
                                })
                     e.ghost[('elem_facts', reg.uid)] = tuple(fl)
+            log['exit_env'] = self.env(e)
+            log['exit_pc'] = list(e.path())
             results.append(Outcome('fall', e))
         else:
             self.orphans = getattr(self, 'orphans', [])
             for r in results:
                 if r.kind == 'dropped':
                     self.orphans.extend(r.st.obligs)
+        if not self._probing:
+            self.loop_log.append(log)
         return [r for r in results if r.kind != 'dropped']
 
     def element_facts(self, st, start, counter, lows, results):
@@ -2310,6 +2420,7 @@ class Executor:
                  len(getattr(self, 'abandoned', []) or []))
         old_log = self.__dict__.get('_fresh_log')
         self._fresh_log = syms = set() if old_log is None else old_log
+        self._probing += 1
         try:
             b = st.copy()
             start = havoc(b, syms)
@@ -2321,6 +2432,8 @@ class Executor:
             deltas = {}
             n_out = 0
             dropped = set()
+            fst = dict(getattr(self, '_fstart', {}) or {})
+            funch = set(fst)
             facts = [k_ for k_ in st.ghost if isinstance(k_, tuple) and k_
                      and k_[0] == 'elem_inv']
             for o in self.exec_stmt(body, b):
@@ -2332,6 +2445,11 @@ class Executor:
                         dropped.add(k_)
                 if inc is not None and inc.get('kind') != 'NullStmt':
                     self.ev(inc, o.st)
+                for rid, t0f in fst.items():
+                    ve = o.st.vars.get(rid)
+                    if not (isinstance(ve, FltV) and z3.is_expr(ve.t) and
+                            z3.eq(ve.t, t0f)):
+                        funch.discard(rid)
                 for rid, t0 in start.items():
                     ve = o.st.vars.get(rid)
                     if not isinstance(ve, IntV):
@@ -2347,6 +2465,8 @@ class Executor:
                         deltas[rid] = None
             if not n_out:
                 return {}, ()
+            if hasattr(self, '_fkeep'):
+                self._fkeep = set(funch)
             out = {}
             for rid, d in deltas.items():
                 v0 = st.vars.get(rid)
@@ -2357,6 +2477,7 @@ class Executor:
         except (Unsupported, NeedFork, Impure, NeedInline):
             return {}, ()
         finally:
+            self._probing -= 1
             self._fresh_log = old_log
             if hasattr(self, 'orphans'):
                 del self.orphans[saved[0]:]
@@ -2390,6 +2511,7 @@ class Executor:
             return ()
         saved = (len(getattr(self, 'orphans', []) or []),
                  len(getattr(self, 'abandoned', []) or []))
+        self._probing += 1
         try:
             for _round in range(5):
                 b = st.copy()
@@ -2449,6 +2571,7 @@ class Executor:
         except (Unsupported, NeedFork, Impure, NeedInline):
             return ()
         finally:
+            self._probing -= 1
             if hasattr(self, 'orphans'):
                 del self.orphans[saved[0]:]
             if hasattr(self, 'abandoned'):
